@@ -10,7 +10,7 @@ def run(rep, tier):
     lib.proof_gate(rep, PROP, THEOREMS, IMPORTS)
     n, cyc = (64, 400) if tier == "quick" else (3000, 700)
     n = rep.scale(n)
-    agg = runner.correspondence(rep, prop=PROP, mod_name="harness.gpiosim", driver_kind="gpio", ncases=n, extra=(cyc,),
+    agg = runner.correspondence(rep, prop=PROP, mod_name="harness.gpiosim", legal_only=True, driver_kind="gpio", ncases=n, extra=(cyc,),
                                 nontrivial=lambda r: r["stats"]["mode_writes"] >= 2 and r["stats"]["setclr_writes"] >= 2 and r["stats"]["input_reads"] >= 1,
                                 sample_fmt=lambda r: {"gpio": r["descr"], "layout": r["obs"][0], "cycles (addr r_stb w_stb w_data pins)": r["lines"][1:5], "observed (r_data | o oe alt_mode)": r["obs"][1:5]})
     rep.coverage.update(agg)
